@@ -29,10 +29,12 @@ SIG_END_LABEL_PROXY = "end-label-captured-by-proxy-deletion-of-next-block"
 SIG_WHOLE_DELETE_INSERT = "insert-at-end-of-wholly-deleted-block-asserts"
 SIG_BRANCH_MOVED_LABEL = "patch-branch-to-label-of-block-deleted-in-same-batch"
 
+SIG_CFI_AT_END = "data-patch-at-the-end-of-the-last-code-block-that-carries-cfi-directives-asserts"
 REJECTION_OWNER = {
     "whole-delete-then-insert": ("C01", SIG_WHOLE_DELETE_INSERT),
     "branch-to-moved-label": (None, None),  # legitimate when the label now stands on data
     "label-at-end": (None, None),  # documented limit, no finding
+    "cfi-at-end": ("C01", SIG_CFI_AT_END),
 }
 
 
@@ -224,8 +226,8 @@ class Campaign:
         for e in case.get("edits", []):
             ctx.count("op:" + e["op"] + (":proxy" if e.get("proxy") else ""))
         if o["err"]:
-            cls = emodify.classify_error(o)
             pred = emodify.predicted_rejections(case)
+            cls = emodify.classify_error(o, pred)
             if cls is not None and cls in pred:
                 ctx.count("refused:" + cls)
                 owner, sig = REJECTION_OWNER[cls]
